@@ -508,7 +508,10 @@ class ReorgDriver(IndexDriver):
                     state['detail'] = detail
                     state['backup'] = any(x.tag.endswith('backup_block') for x in sim.workers)
                     return True
-            state['prev'] = (tag, detail)
+            if _is_flush_op(tag, detail):
+                # (block files being downloaded meanwhile - after a restart the blocks to undo are fetched again -
+                # do not come between the two commits of one flush_backup)
+                state['prev'] = (tag, detail)
             return False
         sim.crash_hook = hook
         w.fs.tear = op.get('tear')
